@@ -533,7 +533,8 @@ def run_history(c, per_call_twin=True, stop_at_first=False):
     problems.append('after the history the behaviour differs from a freshly constructed twin at %s' % (bad,))
   for name, obj, s0 in reg.objs:
     if snap(obj) != s0:
-      problems.append('caller data %s is not bit-identical to its deep copy / lost identity' % name)
+      problems.append('caller data %s is not bit-identical to its deep copy (or lost identity) after the closing round of reads '
+                      '(cost/deriv/hess/bounds/constraints and their functions/to_dict/project/map on every node)' % name)
       break
   return {'reg': reg, 'steps': steps[:model_upto], 'final': final, 'problems': problems, 'arrays0': arrays0, 'model_upto': model_upto,
           'eff_ops': eff_ops}
